@@ -1,7 +1,7 @@
 (* C09 — a failing sensor or fan read/write never crashes the daemon.
    This file holds only the property theorems; each is closed by [exact]. *)
-From Coq Require Import ZArith Bool List.
-From F2G Require Import gen.Consts Model.Restore Proofs.Restore Model.Faults Proofs.Faults Model.Daemon Proofs.Daemon.
+From Coq Require Import ZArith Bool List String.
+From F2G Require Import gen.Consts Model.Restore Proofs.Restore Model.Faults Proofs.Faults Model.Daemon Proofs.Daemon Model.FaultsOps Proofs.FaultsOps gen.PanicSites Model.PanicSites Proofs.PanicSites.
 Import ListNotations.
 Open Scope Z_scope.
 
@@ -31,6 +31,35 @@ Theorem C09_continues :
 Proof. exact run_continues. Qed.
 Print Assumptions C09_continues.
 
+(* per-OPERATION fault plans: per cycle, any fault on exactly the k-th fallible
+   operation of that cycle (sensor monitor read, RPM monitor probe / PWM read / RPM
+   read, the Supports() probes and the first PWM read of calculateTargetPwm, every
+   sensor read of the curve, probe and read of ensureNoThirdPartyIsMessingWithUs,
+   mode write and read-back (and the fallback mode write), probes and read of
+   setPwm, and every write / read-back of restorePwmEnabled), for every combination,
+   every plan of any length: never a panic; a stop only through a safe restore *)
+Theorem C09_no_crash_ops :
+  forall cb orig d0 plan, valid_config cb ->
+    match fst (run_ops repaired cb orig d0 plan) with
+    | Crash _ _ => False
+    | FanStopped _ p r => safe (mode_supported (cb_fan cb) (cb_enable_exists cb)) orig (r_dev r)
+                          \/ last_resort_write_failed p r
+    | Regulating _ => True
+    end.
+Proof. exact run_ops_no_crash. Qed.
+Print Assumptions C09_no_crash_ops.
+
+(* if every operation that was hit by a fault is of an allowed kind (anything but the
+   first PWM read of the first cycle and the sensor reads of the curve) and there is
+   no stalled-at-max verdict, the loop keeps regulating *)
+Theorem C09_continues_ops :
+  forall cb orig d0 plan, valid_config cb ->
+    forallb (fun y => negb (oy_stall y)) plan = true ->
+    forallb benign_trace (snd (run_ops repaired cb orig d0 plan)) = true ->
+    exists s, fst (run_ops repaired cb orig d0 plan) = Regulating s.
+Proof. exact run_ops_continues. Qed.
+Print Assumptions C09_continues_ops.
+
 (* process level: whatever a controller's start-up step or control cycle returns
    (errors included), a sensor monitor returning an error, any signals: the
    process never panics (every schedule of Model/Daemon.v) *)
@@ -46,6 +75,17 @@ Theorem C09_process_d4_refuted :
   st (exec d4_only (init two_fans 1) sched_init_fails) = Crashed 4.
 Proof. exact (proj1 process_d4_refuted). Qed.
 Print Assumptions C09_process_d4_refuted.
+
+(* every explicit abrupt-termination site of internal/... in the CURRENT source (regenerated list)
+   is classified: before any fan is touched / unreachable (reason) / modelled outcome / helper *)
+Theorem C09_panic_sites_classified : forall s, In s sites -> exists c, classify s = Some c.
+Proof. exact all_sites_classified. Qed.
+Print Assumptions C09_panic_sites_classified.
+
+(* ... and the ui.Fatal in the inner run group's interrupt handler stays dead: both actors return nil *)
+Theorem C09_inner_actors_return_nil : forall r, In r inner_actor_returns -> r = "nil"%string.
+Proof. exact inner_actors_return_nil. Qed.
+Print Assumptions C09_inner_actors_return_nil.
 
 (* the code as found *)
 Theorem C09_d5_refuted :
